@@ -51,6 +51,7 @@ SAN_ENV = {
 DEFAULT = {"variant": "asan", "adapters": True, "quick": {"shards": 8, "n": 1500, "scale": 20, "arg": 0},
            "thorough": {"shards": 16, "n": 12000, "scale": 30, "arg": 0}, "fuzz_s": 0}
 CONFIG = {
+    "C16": {"quick": {"shards": 8, "n": 1500, "scale": 24, "arg": 8}, "thorough": {"shards": 16, "n": 10000, "scale": 40, "arg": 16}},
     "C15": {"quick": {"shards": 8, "n": 2500, "scale": 24, "arg": 12}, "thorough": {"shards": 16, "n": 15000, "scale": 40, "arg": 24}},
     "C10": {"variants": ["asan", "tsan"],
             "quick": {"shards": 4, "n": 150, "scale": 20, "arg": 12, "max_size": 100},
